@@ -187,15 +187,33 @@ def TF : Transc Float := ⟨Float.exp, Float.log⟩
 def getF (j : Json) (k : String) : Except String Float := ratToFloat <$> getRat j k
 def getFL (j : Json) (k : String) : Except String (List Float) := (·.map ratToFloat) <$> getRatList j k
 
-/-- `c19.bern`: {logit, p, u, v, eps} -> formulas of LogisticBernoulli for both `b`.
-`p`, `u`, `v` are RAW (`self.probs` and the uniform draws before `clamp_probs`): the clamps are
-part of the model (`lbRsampleC`, `lbCsampleC`); `eps` = `finfo(dtype).eps`. -/
-def hBern : Handler := fun c => do
-  let l ← getF c "logit"
-  let p ← getF c "p"
-  let u ← getF c "u"
-  let v ← getF c "v"
-  let eps ← getF c "eps"
+/-- a float given as a rational string or one of `"inf"`, `"-inf"`, `"nan"` (logits of a
+zero-probability class are `-inf`) -/
+def jsonToFloatX (j : Json) : Except String Float :=
+  match j with
+  | Json.str "inf" => pure (1.0 / 0.0)
+  | Json.str "-inf" => pure (-1.0 / 0.0)
+  | Json.str "nan" => pure (0.0 / 0.0)
+  | _ => ratToFloat <$> jsonToRat j
+def getFX (j : Json) (k : String) : Except String Float := field j k >>= jsonToFloatX
+def getFXL (j : Json) (k : String) : Except String (List Float) := getList jsonToFloatX j k
+def getFXLL (j : Json) (k : String) : Except String (List (List Float)) :=
+  getList (jsonToList jsonToFloatX) j k
+
+def getCtor (j : Json) (k : String) : Except String Ctor := do
+  match (← getStr j k) with
+  | "probs" => pure .probs
+  | "logits" => pure .logits
+  | s => throw s!"{k}: unknown construction {s}"
+
+def paramsJ (P : RelaxedParams Float) : Json :=
+  objJ [("batch_shape", listJ natJ P.batchShape), ("event_shape", listJ natJ P.eventShape),
+        ("probs", listJ floatJ P.probs), ("logits", listJ floatJ P.logits)]
+
+/-- formulas of LogisticBernoulli for one variable and both `b`.  `p`, `u`, `v` are RAW
+(`self.probs` and the uniform draws before `clamp_probs`): the clamps are part of the model
+(`lbRsampleC`, `lbCsampleC`); `eps` = `finfo(dtype).eps`. -/
+def bernElem (l p u v eps : Float) : Json :=
   let z := lbRsampleC TF eps l u
   let b := lbThreshold z
   let forB := fun (bb : Float) =>
@@ -204,28 +222,83 @@ def hBern : Handler := fun c => do
           ("zc_spec", floatJ (lbCsampleSpec TF eps l (clampProbs eps v) bb)),
           ("clog", optJ floatJ (lbClogProb TF l zc bb)), ("tlog", floatJ (lbTlogProb TF l bb)),
           ("logprob_zc", floatJ (lbLogProb TF l zc))]
-  pure (objJ [("z", floatJ z), ("b", floatJ b), ("logprob", floatJ (lbLogProb TF l z)),
+  objJ [("z", floatJ z), ("b", floatJ b), ("logprob", floatJ (lbLogProb TF l z)),
     ("tlog", floatJ (lbTlogProb TF l b)), ("clog", optJ floatJ (lbClogProb TF l z b)),
-    ("c0", forB 0.0), ("c1", forB 1.0)])
+    ("c0", forB 0.0), ("c1", forB 1.0)]
 
-/-- `c19.gumbel`: {logits, probs, us, vs, k, eps}; `probs`, `us`, `vs` raw (see `c19.bern`). -/
-def hGumbel : Handler := fun c => do
-  let ls ← getFL c "logits"
-  let ps ← getFL c "probs"
+/-- `c19.bern`: {logit, p, u, v, eps} -/
+def hBern : Handler := fun c => do
+  pure (bernElem (← getFX c "logit") (← getF c "p") (← getF c "u") (← getF c "v") (← getF c "eps"))
+
+/-- `c19.bern_nd`: a whole LogisticBernoulli tensor. {ctor, shape, data (the tensor handed to the
+constructor), eps, logits, probs (the implementation's own derived tensors, flat), us, vs (flat,
+shape sample ++ batch)}.  Reply: the model's construction (`lbParams`: shapes and both
+attributes), per-entry formulas with the parameter picked by the model's broadcasting rule, and
+the tensor-level `rsample` / `csample(1)` / `tlog_prob(1)`. -/
+def hBernNd : Handler := fun c => do
+  let ctor ← getCtor c "ctor"
+  let shape ← getNatList c "shape"
+  let data ← getFXL c "data"
+  let eps ← getF c "eps"
+  let ls ← getFXL c "logits"
+  let ps ← getFXL c "probs"
   let us ← getFL c "us"
   let vs ← getFL c "vs"
-  let k ← getNat c "k"
-  let eps ← getF c "eps"
+  let P := lbParams TF eps ctor shape data
+  let Pi : RelaxedParams Float := ⟨P.batchShape, P.eventShape, ps, ls⟩
+  let B := prodL P.batchShape
+  let elems := (us.zip vs).zipIdx.map fun uvn =>
+    bernElem (paramAt ls B uvn.2) (paramAt ps B uvn.2) uvn.1.1 uvn.1.2 eps
+  let ones := us.map fun _ => (1.0 : Float)
+  pure (objJ [("params", paramsJ P), ("elems", Json.arr elems.toArray),
+    ("zT", listJ floatJ (lbRsampleT TF eps Pi us)),
+    ("zc1T", listJ floatJ (lbCsampleT TF eps Pi vs ones)),
+    ("tlog1T", listJ floatJ (lbTlogProbT TF Pi ones))])
+
+/-- formulas of GumbelOneHotCategorical for one row; `probs`, `us`, `vs` raw (see `bernElem`). -/
+def gumbelElem (ls ps us vs : List Float) (k : Nat) (eps : Float) : Json :=
   let z := gRsampleC TF eps ls us
   let b := gThreshold z
-  let bk : List Float := oneHot k ls.length
+  let V := ls.length
+  let bk : List Float := oneHot k V
   let zc := gCsampleC TF eps ps vs bk
-  pure (objJ [("z", listJ floatJ z), ("b", listJ floatJ b), ("logprob", floatJ (gLogProb TF ls z)),
+  objJ [("z", listJ floatJ z), ("b", listJ floatJ b), ("logprob", floatJ (gLogProb TF ls z)),
     ("tlog", floatJ (gTlogProb ls b)), ("clog", optJ floatJ (gClogProb TF ls z b)),
     ("zc", listJ floatJ zc), ("thr_zc", listJ floatJ (gThreshold zc)),
     ("zc_spec", listJ floatJ (gCsampleSpec TF eps ls (vs.map (clampProbs eps)) bk)),
     ("clog_zc", optJ floatJ (gClogProb TF ls zc bk)), ("tlog_k", floatJ (gTlogProb ls bk)),
-    ("logprob_zc", floatJ (gLogProb TF ls zc))])
+    ("tlog_all", listJ floatJ ((List.range V).map fun j => gTlogProb ls (oneHot j V : List Float))),
+    ("logprob_zc", floatJ (gLogProb TF ls zc))]
+
+/-- `c19.gumbel`: {logits, probs, us, vs, k, eps} -/
+def hGumbel : Handler := fun c => do
+  pure (gumbelElem (← getFXL c "logits") (← getFXL c "probs") (← getFL c "us") (← getFL c "vs")
+    (← getNat c "k") (← getF c "eps"))
+
+/-- `c19.gumbel_nd`: a whole GumbelOneHotCategorical tensor. {ctor, shape, data, eps, logits,
+probs (implementation's derived tensors, flat), us, vs (rows of the tensors of shape
+sample ++ batch ++ [V]), ks (conditioning class per row)}. -/
+def hGumbelNd : Handler := fun c => do
+  let ctor ← getCtor c "ctor"
+  let shape ← getNatList c "shape"
+  let data ← getFXL c "data"
+  let eps ← getF c "eps"
+  let ls ← getFXL c "logits"
+  let ps ← getFXL c "probs"
+  let us ← getFXLL c "us"
+  let vs ← getFXLL c "vs"
+  let ks ← getNatList c "ks"
+  let P := gParams TF eps ctor shape data
+  let Pi : RelaxedParams Float := ⟨P.batchShape, P.eventShape, ps, ls⟩
+  let V := P.eventShape.headD 1
+  let B := prodL P.batchShape
+  let elems := ((us.zip vs).zip ks).zipIdx.map fun x =>
+    gumbelElem (paramRowAt ls V B x.2) (paramRowAt ps V B x.2) x.1.1.1 x.1.1.2 x.1.2 eps
+  let bks : List (List Float) := ks.map fun k => oneHot k V
+  pure (objJ [("params", paramsJ P), ("elems", Json.arr elems.toArray),
+    ("zT", listJ (listJ floatJ) (gRsampleT TF eps Pi us)),
+    ("zcT", listJ (listJ floatJ) (gCsampleT TF eps Pi vs bks)),
+    ("tlogT", listJ floatJ (gTlogProbT Pi bks))])
 
 /-- `c19.srswor_prob`: {out_size, total, given} -> exp(log_prob) of the SRSWOR distribution
 (exact), the number of rows of the cardinality filter, and `binomial_coefficient`. -/
@@ -243,4 +316,5 @@ def main : IO Unit := Proto.run [
   ("c19.relax", hRelax), ("c19.srswor", hSrswor), ("c19.binom", hBinom),
   ("c19.enum_vocab", hEnumVocab), ("c19.enum_card", hEnumCard),
   ("c19.enum_card_tensor", hEnumCardTensor), ("c19.bern", hBern), ("c19.gumbel", hGumbel),
+  ("c19.bern_nd", hBernNd), ("c19.gumbel_nd", hGumbelNd),
   ("c19.srswor_prob", hSrsworProb)]
